@@ -60,7 +60,16 @@ type TypeSpec struct {
 	Builtin string `json:"builtin,omitempty"`
 }
 
+// DirSpec is a custom directive definition (locations FIELD, FRAGMENT_SPREAD, INLINE_FRAGMENT; no
+// field-collection filter, so it only matters to validation and introspection). Directives carry no
+// required features, and schema.New has no feature rule for their argument types.
+type DirSpec struct {
+	Name string    `json:"name"`
+	Args []ArgSpec `json:"args,omitempty"`
+}
+
 type Spec struct {
+	Directives []DirSpec   `json:"directives,omitempty"`
 	Types      []TypeSpec  `json:"types"`
 	Query      string      `json:"query"`
 	Mutation   string      `json:"mutation,omitempty"`
@@ -75,6 +84,9 @@ type Spec struct {
 
 func (s *Spec) clone() *Spec {
 	out := &Spec{Query: s.Query, Mutation: s.Mutation, Subscription: s.Subscription}
+	for _, d := range s.Directives {
+		out.Directives = append(out.Directives, DirSpec{Name: d.Name, Args: append([]ArgSpec(nil), d.Args...)})
+	}
 	for _, ci := range s.ConnIfaces {
 		ci.Req = append([]string(nil), ci.Req...)
 		out.ConnIfaces = append(out.ConnIfaces, ci)
@@ -257,6 +269,17 @@ func eraseSpec(s *Spec, F map[string]bool) *Spec {
 		}
 	}
 	out := &Spec{Query: s.Query, Mutation: s.Mutation, Subscription: s.Subscription}
+	// a directive argument whose type is deleted goes with it (there is no construction rule that
+	// would forbid such an argument: open findings F-10g / F-13g)
+	for _, d := range s.Directives {
+		nd := DirSpec{Name: d.Name}
+		for _, a := range d.Args {
+			if alive[baseName(a.Type)] {
+				nd.Args = append(nd.Args, a)
+			}
+		}
+		out.Directives = append(out.Directives, nd)
+	}
 	if out.Mutation != "" && !alive[out.Mutation] {
 		out.Mutation = ""
 	}
@@ -447,6 +470,47 @@ func stripReq(s *Spec) *Spec {
 	}
 	for i := range out.ConnIfaces {
 		out.ConnIfaces[i].Req = nil
+	}
+	return out
+}
+
+// allDirectives: the custom directives plus the two the builder always registers.
+func allDirectives(s *Spec) []DirSpec {
+	return append([]DirSpec{{Name: "include", Args: []ArgSpec{{"if", "Boolean!"}}}, {Name: "skip", Args: []ArgSpec{{"if", "Boolean!"}}}}, s.Directives...)
+}
+
+// dirSexp: (directives (name ((arg type)…))…), sent to the driver before the schema it belongs to.
+func dirSexp(s *Spec) hx.Sexp {
+	out := []hx.Sexp{hx.A("directives")}
+	for _, d := range allDirectives(s) {
+		out = append(out, hx.L(hx.A(d.Name), argsSexp(d.Args)))
+	}
+	return hx.L(out...)
+}
+
+func canonDirectives(s *Spec) string {
+	var ds []string
+	for _, d := range allDirectives(s) {
+		var as []string
+		for _, a := range d.Args {
+			as = append(as, a.Name+":"+a.Type)
+		}
+		sort.Strings(as)
+		ds = append(ds, "@"+d.Name+"("+strings.Join(as, ",")+")")
+	}
+	sort.Strings(ds)
+	return strings.Join(ds, " ")
+}
+
+// hiddenDirectiveArgs lists "directive.arg" for the directive arguments whose type is not visible under F.
+func hiddenDirectiveArgs(s *Spec, F map[string]bool) []string {
+	var out []string
+	for _, d := range s.Directives {
+		for _, a := range d.Args {
+			if t := s.find(baseName(a.Type)); t != nil && !subset(t.Req, F) {
+				out = append(out, d.Name+"."+a.Name)
+			}
+		}
 	}
 	return out
 }
